@@ -105,6 +105,15 @@ func (x *Exec) typeFacts(st *State, t types.Type, term string) {
 			st.assume(app("g_isbytes", term))
 		}
 		st.assume(tAnd(tCmp("<=", "0", sLen(x.w.SortOf(t), term)), tCmp("<=", sLen(x.w.SortOf(t), term), maxLenLit)))
+		if pt, ok := u.Elem().Underlying().(*types.Pointer); ok && isStructLike(pt.Elem()) {
+			// every stored reference was allocated before now
+			x.freshN++
+			q := fmt.Sprintf("q_i_%d", x.freshN)
+			e := sIdx(SSeqI, term, q)
+			if !strings.Contains(term, "(ite ") {
+				st.assume(fmt.Sprintf("(forall ((%s Int)) (! (=> (and (<= 0 %s) (< %s %s)) (and (<= 0 %s) (< %s %s))) :pattern (%s)))", q, q, q, sLen(SSeqI, term), e, e, st.top, e))
+			}
+		}
 	case *types.Array:
 		st.assume(tEq(sLen(x.w.SortOf(t), term), num(u.Len())))
 		if isByteElem(u.Elem()) {
